@@ -7,7 +7,7 @@ from formulaic.parser.types import Factor, Term
 from formulaic.utils.layered_mapping import LayeredMapping
 from formulaic.utils.structured import Structured
 
-for _k, _v in (("__LO__", -3), ("__HI__", 2), ("__NP__", 3), ("__OP1__", 0), ("__OP2__", 0), ("__ORD__", 0)):
+for _k, _v in (("__LO__", -3), ("__HI__", 2), ("__NP__", 3), ("__OP1__", 0), ("__OP2__", 0), ("__ORD__", 0), ("__R__", 5), ("__SHARD__", 0)):
     globals().setdefault(_k, _v)  # defaults for native runs / replays; the runner substitutes the tokens textually
 
 
@@ -341,6 +341,65 @@ def sf_ops(op1: int, i1: int, t1: int, op2: int, i2: int, t2: int) -> bool:
             return False
         ref = got
     return True
+
+
+def sf_more(kind: int, i: int, j: int, t1: int, t2: int, o: int) -> bool:
+    """
+    pre: 0 <= kind < 6 and -__R__ <= i <= __R__ and -__R__ <= j <= __R__ and 0 <= t1 < __NP__ and 0 <= t2 < __NP__ and 0 <= o < 3 and kind == __SHARD__ and o == __ORD__
+    post: _
+    """
+    # the rest of the mutable-sequence interface: slices (get / set / delete) and the mixin methods built on the abstract ones
+    kind, i, j, t1, t2, o = _pick(kind, 0, 5), _pick(i, -__R__, __R__), _pick(j, -__R__, __R__), _pick(t1, 0, __NP__ - 1), _pick(t2, 0, __NP__ - 1), _pick(o, 0, 2)
+    pool = _pool()
+    ordering = ("degree", "none", "sort")[o]
+    f = SimpleFormula([pool[2], pool[1], pool[0], pool[4]], _ordering=ordering)
+    mirror = list(f)
+    try:
+        if kind == 0:
+            mirror[i:j] = [pool[t1], pool[t2]]
+        elif kind == 1:
+            del mirror[i:j]
+        elif kind == 2:
+            mirror.append(pool[t1])
+            mirror.extend([pool[t2]])
+        elif kind == 3:
+            mirror.pop(i)
+        elif kind == 4:
+            mirror.remove(pool[t1])
+        else:
+            mirror = mirror[i:j]
+        list_exc = None
+    except (IndexError, ValueError) as e:
+        list_exc = type(e)
+    try:
+        if kind == 0:
+            f[i:j] = [pool[t1], pool[t2]]
+        elif kind == 1:
+            del f[i:j]
+        elif kind == 2:
+            f.append(pool[t1])
+            f.extend([pool[t2]])
+        elif kind == 3:
+            f.pop(i)
+        elif kind == 4:
+            f.remove(pool[t1])
+        else:
+            f = f[i:j]
+            if not isinstance(f, SimpleFormula) or f.ordering.value != ordering:
+                return False
+        f_exc = None
+    except (IndexError, ValueError) as e:
+        f_exc = type(e)
+    if list_exc != f_exc:
+        return False
+    if list_exc is not None:
+        return True
+    got = list(f)
+    if sorted(repr(x) for x in got) != sorted(repr(x) for x in mirror):
+        return False
+    if ordering == "none":
+        return [repr(x) for x in got] == [repr(x) for x in mirror]
+    return [repr(x) for x in SimpleFormula(mirror, _ordering=ordering)] == [repr(x) for x in got]
 
 
 def sf_shards(lo, hi, npool, orderings=("degree", "none", "sort")):
